@@ -54,14 +54,20 @@ result). None of them is committed in `/repo`; to run a check against one:
 (or, without touching `/repo`, `PYVC_REPO_SRC=<worktree>/src ./check <Cxx> quick`).
 `m1`/`m2` are the first round (one agent per property, all 20 properties), `m3`/`m4` a
 second round and `m5`/`m6` a third round (again two per property, all 20 properties),
-`m7`/`m8` a fourth round for C01, C03, C04, C08, C10, C12, C13 and C17, each on the tree
-with the `fix:` commits of the time.
+`m7`/`m8` a fourth round for C01, C03, C04, C08, C10, C12, C13 and C17 and a fifth round
+for C06, C07, C09, C11, C14, C15, C16 and C18, each on the tree with the `fix:` commits of
+the time.
 The raw logs of the confirmation runs are in `seeded/logs/`.
 
 {det} of {n} confirmed changes are reported by the quick tier of the check of their own
 property - *after* the strengthening described below the table. At first sight the checks
-reported 32 of 39 (first round), 31 of 40 (second), 28 of 40 (third) and 14 of 15
-(fourth: eight properties, sixteen changes, one of which could not be confirmed); every miss was in
+reported 32 of 39 (first round), 31 of 40 (second), 28 of 40 (third), 14 of 15
+(fourth: eight properties, sixteen changes, one of which could not be confirmed) and
+FIFTH_ROUND_COUNT (fifth: eight properties; missed at first: `C09-m8`, a back-pointer cache in
+`inverted()` - the stand-in never inverted an inverse; `C11-m7`, `isinstance` instead of
+type identity in the same-kind test of `update` - needs a `datetime` or `bool` validity,
+a subclass instance the scenarios and the stand-in did not contain; `C18-m8`,
+`normalize()` on standard-library decimals - needs more than 28 significant digits); every miss was in
 a bounded part (a stand-in that lacked the triggering input or sequence), in code outside
 the functions and argument kinds under contract (`Term` general path, `utils.sum`,
 `QuantityMeta.__new__`, string spellings), behind an abstraction of the model (dictionary
